@@ -1,7 +1,10 @@
 """Implementation driver for C18: runs the real launcherfinder on generated cases."""
 import json
+import shutil
 import sys
+import tempfile
 from functools import reduce
+from pathlib import Path
 
 from experimaestro.launcherfinder import parse
 from experimaestro.launcherfinder.specs import (
@@ -69,6 +72,76 @@ def host_of(h):
         priority=h["prio"], max_duration=h["maxdur"], min_gpu=h["mingpu"])
 
 
+# a launchers.py as the documentation describes it (docs/launchers/index.md, tests/launchers/config_slurm):
+# the hosts of the site are examined in order, the first one the requirement matches gives the launcher
+LAUNCHERS_PY = '''
+from experimaestro.launcherfinder.specs import HostRequirement
+from experimaestro.launchers.slurm.base import SlurmLauncher, SlurmOptions
+
+HOSTS = []      # set by the driver before each find()
+MATCHED = []    # (index of the host, requirement that matched)
+
+
+def find_launcher(requirements: HostRequirement, tags=set()):
+    for j, host in enumerate(HOSTS):
+        if match := requirements.match(host):
+            MATCHED.append((j, match.requirement))
+            return SlurmLauncher(
+                options=SlurmOptions(partition=f"p{j}", gpus_per_node=len(match.requirement.cuda_gpus))
+            )
+    return None
+'''
+
+_registry = None
+
+
+def registry():
+    """the real LauncherRegistry over a configuration directory holding the launchers.py above"""
+    global _registry
+    if _registry is None:
+        from experimaestro.launcherfinder.registry import LauncherRegistry
+        d = Path(tempfile.mkdtemp(prefix="xpmverif-c18-conf-"))
+        try:
+            (d / "launchers.py").write_text(LAUNCHERS_PY)
+            _registry = LauncherRegistry(d)
+        finally:
+            shutil.rmtree(d, ignore_errors=True)
+        assert _registry.find_launcher_fn is not None
+    return _registry
+
+
+def run_registry(c, reqs):
+    """LauncherRegistry.find over the hosts of the case; the alternatives are handed over as the groups say:
+    str = one string (its alternatives joined by |), obj = a simple requirement object, union = an object built with |"""
+    reg = registry()
+    g = reg.find_launcher_fn.__globals__
+    g["HOSTS"][:] = [host_of(h) for h in c["hosts"]]
+    del g["MATCHED"][:]
+    args, i = [], 0
+    for grp in c["groups"]:
+        sub = reqs[i:i + grp["n"]]
+        i += grp["n"]
+        if grp["kind"] == "str":
+            args.append(grp["text"])
+        elif grp["kind"] == "obj":
+            args.extend(sub)
+        else:
+            args.append(reduce(lambda x, y: x | y, sub))
+    out = dict(exc=None, host=None, req=None, part=None, gpus=None)
+    try:
+        launcher = reg.find(*args)
+    except Exception as e:  # noqa
+        out["exc"] = type(e).__name__
+        return out
+    if launcher is not None:
+        j, r = g["MATCHED"][-1]
+        out["host"] = j
+        out["req"] = canon(r) if hasattr(r, "cuda_gpus") else None
+        out["part"] = launcher.options.partition
+        out["gpus"] = launcher.options.gpus_per_node
+    return out
+
+
 def run_case(c):
     out = {}
     try:
@@ -92,6 +165,26 @@ def run_case(c):
     else:
         idx = [i for i, r in enumerate(reqs) if r is u.requirement]
         out["union"] = [idx[0] if idx else -1, int(u.score)]
+    # the same union written with the | operator
+    before = [canon(r) for r in reqs]
+    ou = reduce(lambda x, y: x | y, reqs).match(host)
+    if ou is None:
+        out["orunion"] = None
+    else:
+        idx = [i for i, r in enumerate(reqs) if r is ou.requirement]
+        out["orunion"] = [idx[0] if idx else -1, int(ou.score)]
+    # registry level: every alternative against every host of the site, then the real LauncherRegistry.find
+    hosts = [host_of(h) for h in c.get("hosts", [])]
+    grid = []
+    for r in reqs:
+        row = []
+        for h in hosts:
+            m = r.match(h)
+            row.append(None if m is None else int(m.score))
+        grid.append(row)
+    out["grid"] = grid
+    out["reg"] = run_registry(c, reqs) if c.get("groups") else None
+    out["pure_after"] = [canon(r) for r in reqs] == before
     return out
 
 
